@@ -232,3 +232,18 @@ def c_parameters_lookup(P):
     ln = models._b_len(P, [ps], {})
     P.prove("len_is_the_number_of_parameters", zint(ln) == n)
     P.cover("name")
+
+
+def bounded_checks(tier, seed):
+    import json, os, subprocess, time
+    from pyvc.run import VERIF, VENV_PY, REPO_SRC
+    t0 = time.time()
+    r = subprocess.run([VENV_PY, "-m", "replay.C02", "120" if tier == "quick" else "600"], capture_output=True, text=True, cwd=str(VERIF),
+                       env=dict(os.environ, PYTHONPATH=str(REPO_SRC)), timeout=1200)
+    if r.returncode != 0:
+        raise RuntimeError("bounded C02 sweep crashed: " + r.stderr[-1500:])
+    d = json.loads(r.stdout.strip().splitlines()[-1])
+    return [{"check": "signatures_vs_inspect", "tool": "native: the whole static pipeline (griffe.visit) against inspect.signature of the executed definitions",
+             "bound": f"all {d['shapes']} parameter-list shapes with <= 2 parameters per group, every legal default placement, with and without annotations, as function, "
+                      "method and async method; overloads and property accessors of a fixed class",
+             "cases": d["cases"], "failing": len(d["bad"]), "wall_s": round(time.time() - t0, 1), "violations": d["bad"]}]
